@@ -29,13 +29,19 @@ func topkElems(v interface{}) []heapDoc {
 
 type topkMem struct{ t *gostatix.TopK }
 
-func (h topkMem) Insert(d []byte, c uint64) error { h.t.Insert(d, c); return nil }
-func (h topkMem) Values() ([]heapDoc, error)      { return topkElems(h.t.Values()), nil }
-func (h topkMem) Export() ([]byte, error)         { return h.t.Export() }
+func (h topkMem) Insert(d []byte, c uint64) error {
+	viaScratch(d, func(a []byte) { h.t.Insert(a, c) })
+	return nil
+}
+func (h topkMem) Values() ([]heapDoc, error) { return topkElems(h.t.Values()), nil }
+func (h topkMem) Export() ([]byte, error)    { return h.t.Export() }
 
 type topkRedis struct{ t *gostatix.TopKRedis }
 
-func (h topkRedis) Insert(d []byte, c uint64) error { return h.t.Insert(d, c) }
+func (h topkRedis) Insert(d []byte, c uint64) (err error) {
+	viaScratch(d, func(a []byte) { err = h.t.Insert(a, c) })
+	return
+}
 func (h topkRedis) Values() ([]heapDoc, error) {
 	v, err := h.t.Values()
 	return topkElems(v), err
